@@ -19,6 +19,7 @@ CONSTANTS MaxRefs,      \* bound on the number of cells
           IdxSlack,     \* how far outside 0..n index arguments range
           TFKeys, TFIdx, TFLen,   \* tree-form write paths: keys 1..TFKeys, indices 0..TFIdx, length <= TFLen
           TFReadLen,    \* tree-form read table: paths up to this length (0 = no table)
+          TFReadKeys,   \* ... over the key tokens 1..TFReadKeys (objects may hold more keys: field names that are no path segments)
           Emit          \* TRUE: print the graph as JSON lines
 
 VARIABLE heap
@@ -144,7 +145,7 @@ AllEdges(h) == UNION {EdgesOf(h, o) : o \in Cands(h)}
 (* Observation table of a state.                                           *)
 (***************************************************************************)
 ObsVals(h) == ArgScalars \cup RefVals(h) \cup {Nil}
-ReadSegs == {V("key", k) : k \in 1..NKeys} \cup {V("idx", i) : i \in 0..MaxLen}
+ReadSegs == {V("key", k) : k \in 1..TFReadKeys} \cup {V("idx", i) : i \in 0..MaxLen}
 RECURSIVE ReadPathsN(_)
 ReadPathsN(n) == IF n = 0 THEN {Z} ELSE {Append(p, s) : p \in ReadPathsN(n - 1), s \in ReadSegs}
 ReadPaths == UNION {ReadPathsN(n) : n \in 1..TFReadLen}
